@@ -298,7 +298,13 @@ func TestVerifC01WireIsRaw(t *testing.T) {
 					return
 				}
 			}
-			err = uc.BuildHandshakeState()
+			// the hello is built for inspection with either of the two documented calls
+			if rapid.IntRange(0, 3).Draw(rt, "first_build_without_session") == 0 {
+				err = uc.BuildHandshakeStateWithoutSession()
+				st.Class("first-build:BuildHandshakeStateWithoutSession")
+			} else {
+				err = uc.BuildHandshakeState()
+			}
 		}); pan != nil {
 			st.Class("build-panic")
 			return // C02/C20 judge build-time panics
